@@ -40,6 +40,12 @@ Theorem C13_publication_is_last : c13_publish_last = true.
 Proof. exact c13_publish_last_check. Qed.
 Print Assumptions C13_publication_is_last.
 
+(* ... the completion flag is stored to by the functions of the handshake only (nothing takes it
+   back once other goroutines may rely on it) ... *)
+Theorem C13_completion_flag_written_only_by_the_handshake : c13_flag_writers_ok = true.
+Proof. exact c13_flag_writers_check. Qed.
+Print Assumptions C13_completion_flag_written_only_by_the_handshake.
+
 (* ... because then a thread that touches a field only after it observed completion never meets
    the handshake thread at that field, whatever the interleaving *)
 Theorem C13_publish_then_observe_race_free : forall h0 w0 s,
